@@ -884,6 +884,12 @@ pub fn check_c20(case: &Case, depth: usize, order: (usize, u64, u32), acc: &mut 
             }
         }
     }
+    // ... and under every completion order of the provider's answers: requests issued from inside
+    // sort_candidates race with the solver's own requests for the same metadata
+    for cb in [SortCallback::DepsOfSorted, SortCallback::CandsOfMentioned] {
+        let plan = crate::e2::AsyncPlan { sort_cb: cb, hint_mask: None, mask: K_CANDS | K_DEPS, pairs: false, hint: None, complete_cap: 200, dev_bound: 1, dev_cap: 200 };
+        crate::e2::check_c10_c11("C20", case, &plan, order, acc);
+    }
     acc.sample(|| json!({"universe": case.u.describe(&case.p), "alphabet": format!("{ops:?}"), "depth": depth}));
 }
 
